@@ -6,6 +6,7 @@ import (
 	"fmt"
 	"net/http"
 	"net/http/httptest"
+	"runtime"
 	"strings"
 	"sync/atomic"
 	"time"
@@ -835,6 +836,60 @@ func Unencodable(res *fw.Result, seed int64) error {
 			res.Add(fw.Finding{Kind: "monitor", Signature: sig + " later call fails", Detail: fmt.Sprintf("a later call on the same client failed: %v %v", v, err), Case: c})
 		}
 		scen.WithTimeout(3*time.Second, closer)
+	}
+	return nil
+}
+
+// keepaliveGoroutines counts the library's ping goroutines alive in this process.
+func keepaliveGoroutines() int {
+	buf := make([]byte, 8<<20)
+	buf = buf[:runtime.Stack(buf, true)]
+	n := 0
+	for _, g := range strings.Split(string(buf), "\n\n") {
+		if strings.Contains(g, "go-jsonrpc.(*wsConn).setupPings.func") {
+			n++
+		}
+	}
+	return n
+}
+
+// CloseAfterReconnect: a client that has reconnected is closed.  Nothing of it may stay behind: in particular
+// the keepalive goroutine of the connection that was current at the close must end like that of a client that
+// never reconnected.
+func CloseAfterReconnect(res *fw.Result, seed int64) error {
+	for _, reconnects := range []int{0, 1, 2} {
+		before := keepaliveGoroutines()
+		run, closer, cancel, err := newRunner(seed+int64(reconnects)*13+77, 0, true, jsonrpc.WithPingInterval(20*time.Millisecond), jsonrpc.WithTimeout(2*time.Second))
+		if err != nil {
+			return err
+		}
+		sig := fmt.Sprintf("close after %d reconnect(s)", reconnects)
+		c := map[string]interface{}{"scenario": "close-after-reconnect", "reconnects": reconnects}
+		base := nextToks(50)
+		for k := 0; k < reconnects; k++ {
+			run.E.PX.Cut(0, "rst")
+			if !run.Probe(base+k, 4*time.Second) {
+				res.Add(fw.Finding{Kind: "monitor", Signature: sig + " never heals", Detail: "no call succeeded within 4s of the reset", Case: c})
+			}
+		}
+		if !run.Probe(base+10, 4*time.Second) {
+			res.Add(fw.Finding{Kind: "monitor", Signature: sig + " call fails", Detail: "a call on the healthy client failed", Case: c})
+		}
+		scenClose(res, closer, sig)
+		cancel()
+		run.E.Close()
+		left := 0
+		for w := 0; w < 400; w++ {
+			if left = keepaliveGoroutines() - before; left <= 0 {
+				break
+			}
+			time.Sleep(5 * time.Millisecond)
+		}
+		if left > 0 {
+			res.Add(fw.Finding{Kind: "monitor", Signature: sig + " keepalive goroutine retained", Detail: fmt.Sprintf("2s after the closer returned %d keepalive goroutine(s) of the closed client are still running", left), Case: c})
+		}
+		res.Count("close-after-reconnect")
+		res.Eval(true, []interface{}{"close-after-reconnect", reconnects})
 	}
 	return nil
 }
